@@ -183,6 +183,18 @@ impl Receiver {
             let state = fdt.state();
             state == fdtreceiver::FDTState::Complete || state == fdtreceiver::FDTState::Receiving
         });
+
+        // Release the FDT instances that are stalled (not complete and no packet received since the timeout)
+        if let Some(object_timeout) = self.config.object_timeout.as_ref() {
+            let now = Instant::now();
+            self.fdt_receivers.retain(|_, fdt| {
+                fdt.state() != fdtreceiver::FDTState::Receiving
+                    || fdt
+                        .receiving_inactivity_duration(now)
+                        .map(|duration| duration.le(object_timeout))
+                        .unwrap_or(true)
+            });
+        }
     }
 
     fn cleanup_objects(&mut self) {
